@@ -250,3 +250,8 @@ BOUNDS = {
 }
 OUTSIDE = ["more than 3 applications per block", "nesting deeper than 3", "concurrent use of the scoped handle"]
 NONTRIVIAL_RULE = ">=2 items and >=1 item served to an application (or a delivered cancellation) on the path"
+
+MANIFEST = {
+    "text": 'Block programs (tools by symbolic selector, items taken, closed/abandoned/exhausted), nesting depth 1..3, exit by fall-through / exception / cancellation; compared with the same program over one shared sync iterator; underlying closed exactly once after the outermost exit, dead handles probed with __anext__/asend/athrow. Nothing is claimed outside the bounds listed in the evidence file.',
+    "note": 'Trusted: CrossHair 0.0.110 (with short-circuiting off and a refined callable() model), z3 5.1.0, the harness oracles. Oracle: stdlib tools over a shared counting iterator.',
+}
